@@ -144,6 +144,9 @@ def classify(it, r, deliberate):
     """-> (outcome class, [(key, what)] discrepancies)"""
     mon = (r.get('plugin') or {}).get(MON) or {}
     errs = mon.get('errors') or []
+    if len(errs) > 1:
+        # a bare CompileError() raised after the real, positioned message was reported is only an abort marker
+        errs = [e for e in errs if e.get('msg') or e.get('pos') or e.get('crash')] or errs
     out = []
     valid = it['valid']
     if r.get('worker_died'):
@@ -151,10 +154,12 @@ def classify(it, r, deliberate):
         if 'timed_out=True' in txt:
             return 'watchdog', [('hang:wall-clock-watchdog', 'worker exceeded its wall-clock limit while compiling this input alone')]
         return 'worker-died', [('crash:process-died', 'the compiler process died: %s' % txt[-300:])]
-    if mon.get('cpu_timeout'):
-        return 'hang', [('hang:cpu-budget', 'compilation used more than the CPU budget (%s s process CPU time)' % mon.get('cpu_s'))]
     cpy = str(it.get('cpython') or '')
     cpython_resource = cpy.startswith(('invalid:RecursionError', 'invalid:MemoryError', 'cpython-crashed'))
+    if mon.get('cpu_timeout') and cpython_resource:
+        return 'resource-limit-like-cpython', []
+    if mon.get('cpu_timeout'):
+        return 'hang', [('hang:cpu-budget', 'compilation used more than the CPU budget (%s s process CPU time)' % mon.get('cpu_s'))]
     esc = mon.get('escaped')
     if esc:
         typ = esc['type'].split('.')[-1]
@@ -202,7 +207,7 @@ def classify(it, r, deliberate):
                 undelib.append(e)
         if undelib:
             e = undelib[0]
-            out.append(('reject-valid:%s' % norm_msg(e['msg']),
+            out.append(('reject-valid:%s:%s' % (e.get('phase') or 'unknown-phase', norm_msg(e['msg'])),
                         'CPython compiles the input, Cython rejects it: %s:%s: %s' % ((e.get('pos') or [0, '?', '?'])[1],
                                                                                        (e.get('pos') or [0, '?', '?'])[2], e['msg'][:200])))
             return 'rejected-valid', out
@@ -217,7 +222,7 @@ def main(ck):
     rng = ck.rng('inputs')
     # ------------------------------------------------------------------ (a) generator of valid programs
     scale = float(os.environ.get('VERIF_C43_SCALE', '1'))     # development aid
-    n_valid = int(ck.pick(600, 6000) * scale)
+    n_valid = int(ck.pick(240, 1500) * scale)
     gen_rejected = 0
     kinds = {}
     small = []
@@ -231,12 +236,14 @@ def main(ck):
         if len(text) < 2500 and len(small) < 80:
             small.append(text)
     # ------------------------------------------------------------------ (b) literal and structure stress
-    for cat, t in I.literal_programs(ck.rng('lit'), int(ck.pick(150, 10 ** 6) * scale)):
+    for cat, t in I.literal_programs(ck.rng('lit'), 10 ** 6):
+        if ck.quick and (len(t) > 120000 or re.search(r'-(20000|10000|5000)$', cat)):
+            continue        # the largest stress programs only in the thorough tier
         inputs.add('literal', cat, t)
     for cat, t in I.DIRECTED:
         inputs.add('directed', cat, t)
     # ------------------------------------------------------------------ (c) mutated and truncated texts
-    n_mut = int(ck.pick(1500, 20000) * scale)
+    n_mut = int(ck.pick(500, 4000) * scale)
     seeds = small + [t for c, t in I.DIRECTED]
     for i in range(n_mut):
         base = seeds[i % len(seeds)]
@@ -244,17 +251,23 @@ def main(ck):
         inputs.add('mutated', op, data)
     ntr = 0
     for t in small[:ck.pick(3, 12)]:
-        for cut in I.truncations(t, every=ck.pick(2, 1)):
+        cuts = I.truncations(t, every=1)
+        rng.shuffle(cuts)
+        for cut in cuts[:ck.pick(40, 60)]:
             inputs.add('truncated', 'token-boundary', cut)
             ntr += 1
     # ------------------------------------------------------------------ (d) corpus (thorough)
     if not ck.quick:
-        for p in I.stdlib_files():
+        std = I.stdlib_files()
+        ck.rng('stdlib').shuffle(std)
+        for p in std[:250]:
             try:
                 inputs.add('stdlib', os.path.basename(p), open(p, 'rb').read(), origin=p)
             except OSError:
                 pass
-        for p in I.tests_run_py():
+        trp = I.tests_run_py()
+        ck.rng('trp').shuffle(trp)
+        for p in trp[:150]:
             inputs.add('tests-run-py', os.path.basename(p), open(p, 'rb').read(), origin=p)
     items = inputs.items
     cpy_crashes = cpython_validity(tree, items)
